@@ -307,14 +307,28 @@ pub fn kinds_entries(loc: &str, ns: &str) -> Vec<(String, Val)> {
                 "range".into(),
                 Val::Range(RangeDecl {
                     ty: Some("u8".into()),
-                    branches: vec![rbr(st(&t(&format!("{pre}range.0"))), vec![CountSpec::UInt(0)]), rbr(s(vec![text(&t(&format!("{pre}range.1-2"))), var("x")]), vec![CountSpec::Str("1..=2".into())]), rbr(s(vec![text(&t(&format!("{pre}range.fb"))), var("count")]), vec![])],
+                    branches: vec![
+                        rbr(st(&t(&format!("{pre}range.0"))), vec![CountSpec::UInt(0)]),
+                        rbr(s(vec![text(&t(&format!("{pre}range.1-2"))), var("x")]), vec![CountSpec::Str("1..=2".into())]),
+                        // partly shadowed by the branch before it
+                        rbr(st(&t(&format!("{pre}range.2or5"))), vec![CountSpec::Str("2 | 5".into())]),
+                        rbr(s(vec![text(&t(&format!("{pre}range.fb"))), var("count")]), vec![]),
+                    ],
                 }),
             ),
             (
                 "frange".into(),
                 Val::Range(RangeDecl {
                     ty: Some("f32".into()),
-                    branches: vec![rbr(st(&t(&format!("{pre}frange.lt1"))), vec![CountSpec::Str("..1.0".into())]), rbr(s(vec![text(&t(&format!("{pre}frange.fb"))), var("count")]), vec![])],
+                    // branches that overlap: an exact value and an alternative list written *after* the bounds that contain
+                    // them (first match wins in every flavour: the view and the string back-ends are generated separately)
+                    branches: vec![
+                        rbr(st(&t(&format!("{pre}frange.lt1"))), vec![CountSpec::Str("..1.0".into())]),
+                        rbr(st(&t(&format!("{pre}frange.1-5"))), vec![CountSpec::Str("1.0..=5.0".into())]),
+                        rbr(st(&t(&format!("{pre}frange.2"))), vec![CountSpec::Float("2.0".into())]),
+                        rbr(st(&t(&format!("{pre}frange.5or7"))), vec![CountSpec::Str("5 | 7.5".into())]),
+                        rbr(s(vec![text(&t(&format!("{pre}frange.fb"))), var("count")]), vec![]),
+                    ],
                 }),
             ),
             ("plu_one".into(), s(vec![text(&t(&format!("{pre}plu.one"))), var("count")])),
@@ -673,6 +687,11 @@ mod jslit;
 
 const C17_ITEMS: &str = r##"
 fn render_page(touch: impl Fn() + Clone + Send + Sync + 'static) -> String {
+    render_page2(|| {}, touch)
+}
+/// `eager` runs while the provider's children are being built (a `t_string!` in a component body), `lazy` when
+/// the view is rendered (a `t!` view, a closure)
+fn render_page2(eager: impl Fn() + Clone + Send + Sync + 'static, touch: impl Fn() + Clone + Send + Sync + 'static) -> String {
     struct Noop;
     impl any_spawner::CustomExecutor for Noop {
         fn spawn(&self, _f: any_spawner::PinnedFuture<()>) {}
@@ -685,6 +704,7 @@ fn render_page(touch: impl Fn() + Clone + Send + Sync + 'static) -> String {
         let opts = leptos_i18n::context::UseLocalesOptions::default().ssr_lang_header_getter(|| None);
         view! {
             <I18nContextProvider enable_cookie=false ssr_lang_header_getter=opts>
+                {eager(); "head"}
                 <p>{move || { touch(); "body" }}</p>
             </I18nContextProvider>
         }
@@ -694,8 +714,8 @@ fn render_page(touch: impl Fn() + Clone + Send + Sync + 'static) -> String {
 }
 "##;
 
-fn c17(tier: Tier) -> i32 {
-    let rep = Reporter::new("C17", "L3", tier);
+fn c17(tier: Tier, pid: &str) -> i32 {
+    let rep = Reporter::new(pid, "L3", tier);
     let nasty: Vec<char> = vec!['"', '\\', '\u{0}', '\u{1}', '\u{1f}', '\u{7f}', '\u{a0}', '\u{ad}', '\u{200b}', '\u{2028}', '\u{feff}', '\u{301}', '\u{1f600}', 'a'];
     let mut strings: Vec<String> = vec![];
     for a in &nasty {
@@ -801,6 +821,19 @@ fn c17(tier: Tier) -> i32 {
             }
             c.add(format!("render_page(move || {{ {body} }})"), format!("PAGE touched {:?}", seq.iter().map(|u| live_units[*u]).collect::<Vec<_>>()), String::new());
             n_pages += 1;
+            // the same units read while the component body is built (eagerly), and the first eagerly / the rest lazily
+            if !seq.is_empty() && (seq.len() <= 2 || tier == Tier::Thorough) {
+                c.add(format!("render_page2(move || {{ {body} }}, || {{}})"), format!("PAGE eager touched {:?}", seq.iter().map(|u| live_units[*u]).collect::<Vec<_>>()), String::new());
+                n_pages += 1;
+                if seq.len() > 1 {
+                    let (loc, ns) = live_units[seq[0]];
+                    let key = if namespaced { format!("{ns}.s000") } else { "s000".to_string() };
+                    let first = format!("let _ = futures::executor::block_on(async {{ td_string!({}, {key}).await.to_string() }}); ", locale_variant(loc));
+                    let rest = body.strip_prefix(first.as_str()).expect("first unit of the body");
+                    c.add(format!("render_page2(move || {{ {first} }}, move || {{ {rest} }})"), format!("PAGE first-eager touched {:?}", seq.iter().map(|u| live_units[*u]).collect::<Vec<_>>()), String::new());
+                    n_pages += 1;
+                }
+            }
         }
         // through the context, with a locale switch in the middle of the render
         let k1 = if namespaced { "one.greet" } else { "greet" };
@@ -817,12 +850,15 @@ fn c17(tier: Tier) -> i32 {
         let ns_names: Vec<String> = (0..tok_strings.len()).map(|i| format!("t{i:03}")).collect();
         let mut ns_refs: Vec<&str> = ns_names.iter().map(|s| s.as_str()).collect();
         ns_refs.push("vars");
+        ns_refs.push("vars2");
         // a namespace whose NAME is not its Rust identifier: the embedded unit id is the name
         ns_refs.push("dash-ns");
         let mut p = Project::new(Config::simple("en", &["en"]).with_namespaces(&ns_refs));
         let mut tables: BTreeMap<(String, String), Vec<String>> = BTreeMap::new();
         p.set_file(Some("vars"), "en", vec![("amount".into(), s(vec![var("n")])), ("both".into(), s(vec![var("a"), var("b")]))]);
         tables.insert(("en".to_string(), "vars".to_string()), vec![]);
+        p.set_file(Some("vars2"), "en", vec![("only".into(), s(vec![var("z")]))]);
+        tables.insert(("en".to_string(), "vars2".to_string()), vec![]);
         p.set_file(Some("dash-ns"), "en", vec![("s".into(), st("dashed")), ("tail".into(), st("ok"))]);
         tables.insert(("en".to_string(), "dash-ns".to_string()), vec!["dashed".to_string(), "ok".to_string()]);
         for (ns, sv) in ns_names.iter().zip(&tok_strings) {
@@ -849,6 +885,15 @@ fn c17(tier: Tier) -> i32 {
             "PAGE touched [(\"en\", \"t000\"), (\"en\", \"vars\")]".to_string(),
             String::new(),
         );
+        // two units with empty tables and one with strings: whatever order the registry hands them out in, an
+        // empty one is followed by another unit
+        c.add("serde_json::to_string(&I18nKeys::__i18n_request_translations__(Locale::en, I18nTranslationUnitsId::vars2)).unwrap()".to_string(), "TABLE en vars2".to_string(), String::new());
+        for order in [["vars.amount, n = 1", "vars2.only, z = 2", "t000.tail"], ["t000.tail", "vars2.only, z = 2", "vars.amount, n = 1"], ["vars2.only, z = 2", "t000.tail", "vars.amount, n = 1"]] {
+            let body: String = order.iter().map(|k| format!("let _ = futures::executor::block_on(async {{ td_string!(Locale::en, {k}).await.to_string() }}); ")).collect();
+            c.add(format!("render_page(move || {{ {body} }})"), "PAGE touched [(\"en\", \"vars\"), (\"en\", \"vars2\"), (\"en\", \"t000\")]".to_string(), String::new());
+            c.add(format!("render_page2(move || {{ {body} }}, || {{}})"), "PAGE eager touched [(\"en\", \"vars\"), (\"en\", \"vars2\"), (\"en\", \"t000\")]".to_string(), String::new());
+            n_pages += 2;
+        }
         c.add("serde_json::to_string(&I18nKeys::__i18n_request_translations__(Locale::en, I18nTranslationUnitsId::dash_ns)).unwrap()".to_string(), "TABLE en dash-ns".to_string(), String::new());
         c.add(
             "render_page(move || { let _ = futures::executor::block_on(async { td_string!(Locale::en, dash_ns.s).await.to_string() }); })".to_string(),
@@ -883,7 +928,7 @@ fn c17(tier: Tier) -> i32 {
         // expectations are judged below, not by `execute`
         plain_cases.push(Case { probe: c.probe, expected: BTreeMap::new(), next_id: c.next_id });
     }
-    execute(&rep, "C17", plain_cases);
+    execute(&rep, pid, plain_cases);
     for (name, whats, tables, namespaced) in metas {
         let Ok(records) = run(&name) else { continue };
         // exported tables per unit
@@ -898,11 +943,11 @@ fn c17(tier: Tier) -> i32 {
                         let want: std::collections::BTreeSet<&String> = tables[&(loc.to_string(), ns.to_string())].iter().collect();
                         let got: std::collections::BTreeSet<&String> = v.iter().collect();
                         if !want.is_subset(&got) {
-                            rep.violation(format!("C17/L3: server-function table of ({loc},{ns}) lacks literals of the file, e.g. {:?}", want.difference(&got).take(3).collect::<Vec<_>>()), json!({}));
+                            rep.violation(format!("{pid}/L3: server-function table of ({loc},{ns}) lacks literals of the file, e.g. {:?}", want.difference(&got).take(3).collect::<Vec<_>>()), json!({}));
                         }
                         exported.insert((loc.to_string(), ns.to_string()), v);
                     }
-                    Err(e) => rep.violation(format!("C17/L3: server-function table of ({loc},{ns}) is not JSON: {e}"), json!({})),
+                    Err(e) => rep.violation(format!("{pid}/L3: server-function table of ({loc},{ns}) is not JSON: {e}"), json!({})),
                 }
                 rep.eval(1);
             }
@@ -912,7 +957,7 @@ fn c17(tier: Tier) -> i32 {
                 rep.eval(1);
                 let want = format!("\"{ns}\" true");
                 if records.get(id) != Some(&want) {
-                    rep.violation(format!("C17/L3: the translation unit id of namespace {ns} serialises / parses back as {:?}, expected {want:?}", records.get(id)), json!({}));
+                    rep.violation(format!("{pid}/L3: the translation unit id of namespace {ns} serialises / parses back as {:?}, expected {want:?}", records.get(id)), json!({}));
                 }
             }
         }
@@ -920,7 +965,7 @@ fn c17(tier: Tier) -> i32 {
             let Some(desc) = what.strip_prefix("PAGE ") else { continue };
             rep.eval(1);
             let Some(html) = records.get(id) else {
-                rep.violation(format!("C17/L3: no page rendered for {desc}"), json!({}));
+                rep.violation(format!("{pid}/L3: no page rendered for {desc}"), json!({}));
                 continue;
             };
             // which units did the page touch?
@@ -936,13 +981,13 @@ fn c17(tier: Tier) -> i32 {
             }
             match jslit::extract_and_decode(html) {
                 Err(e) => rep.violation(
-                    format!("C17/L3: page touching {desc} (namespaced={namespaced}): embedded script is not a valid `window.__LEPTOS_I18N_TRANSLATIONS = [..];` statement: {e}"),
+                    format!("{pid}/L3: page touching {desc} (namespaced={namespaced}): embedded script is not a valid `window.__LEPTOS_I18N_TRANSLATIONS = [..];` statement: {e}"),
                     json!({"page_head": vmodel::report::truncate(html, 600)}),
                 ),
                 Ok(units) => {
                     let got_units: std::collections::BTreeSet<(String, String)> = units.iter().map(|u| (u.locale.clone(), u.id.clone().unwrap_or_else(|| "one".into()))).collect();
                     if got_units != want_units || units.len() != want_units.len() {
-                        rep.violation(format!("C17/L3: page touching {desc} embeds units {got_units:?}, expected exactly {want_units:?}"), json!({}));
+                        rep.violation(format!("{pid}/L3: page touching {desc} embeds units {got_units:?}, expected exactly {want_units:?}"), json!({}));
                     }
                     for u in &units {
                         let key = (u.locale.clone(), u.id.clone().unwrap_or_else(|| "one".into()));
@@ -950,13 +995,13 @@ fn c17(tier: Tier) -> i32 {
                             if *t != u.values {
                                 let i = t.iter().zip(&u.values).position(|(a, b)| a != b).unwrap_or(t.len().min(u.values.len()));
                                 rep.violation(
-                                    format!("C17/L3: page touching {desc}: embedded strings of unit {key:?} differ from the unit's table at index {i}: {:?} vs {:?}", u.values.get(i), t.get(i)),
+                                    format!("{pid}/L3: page touching {desc}: embedded strings of unit {key:?} differ from the unit's table at index {i}: {:?} vs {:?}", u.values.get(i), t.get(i)),
                                     json!({}),
                                 );
                             }
                         }
                         if namespaced != u.id.is_some() {
-                            rep.violation(format!("C17/L3: unit id {:?} with namespaced={namespaced}", u.id), json!({}));
+                            rep.violation(format!("{pid}/L3: unit id {:?} with namespaced={namespaced}", u.id), json!({}));
                         }
                     }
                 }
@@ -966,7 +1011,7 @@ fn c17(tier: Tier) -> i32 {
     rep.nontriv(n_pages);
     rep.sample(json!({"strings": ["\"\\", "</script>", "he said \"hi\" \\ </script> end", "\u{2028}a"]}));
     let mut cov = serde_json::Map::new();
-    cov.insert("rule".into(), json!("two probe crates built with dynamic_load + ssr (two namespaces x two locales; no namespaces): translation strings = all 196 two-character strings over 14 hostile characters plus </script>, </SCRIPT , <!--, -->, ]]>, U+2029, quotes, backtick, ${x}, newlines alone and inside a sentence with quotes and backslashes, and every sequence of <= 2 (thorough 3) tokens over <!--, <script>, <script , </script>, -->, <!-->, x; pages = <I18nContextProvider> rendered natively to HTML for every ordered subset of touched units (65 with namespaces, 5 without) and a context-driven render with a locale switch in the middle; third probe crate: every such token sequence of <= 2 tokens (+ a trailing x; thorough <= 3) alone in a namespace of its own, one page per namespace, plus a namespace whose values are variables only (empty string table) rendered alone and before / after another unit, and a namespace whose name (`dash-ns`) differs from its Rust identifier; oracle: the <script> element is cut the way the WHATWG tokenizer cuts it (script data / escaped / double escaped states: after `<!--` then `<script` an end tag no longer closes the element), its body must be `window.__LEPTOS_I18N_TRANSLATIONS = <array literal>;` read by an ECMAScript literal reader (all JS escapes, no raw line terminators in strings), and its decoded value must list exactly the touched (locale, unit) pairs, each with the unit's table as exported by the generated server function"));
+    cov.insert("rule".into(), json!("two probe crates built with dynamic_load + ssr (two namespaces x two locales; no namespaces): translation strings = all 196 two-character strings over 14 hostile characters plus </script>, </SCRIPT , <!--, -->, ]]>, U+2029, quotes, backtick, ${x}, newlines alone and inside a sentence with quotes and backslashes, and every sequence of <= 2 (thorough 3) tokens over <!--, <script>, <script , </script>, -->, <!-->, x; pages = <I18nContextProvider> rendered natively to HTML for every ordered subset of touched units (65 with namespaces, 5 without) and a context-driven render with a locale switch in the middle; third probe crate: every such token sequence of <= 2 tokens (+ a trailing x; thorough <= 3) alone in a namespace of its own, one page per namespace, plus two namespaces whose values are variables only (empty string tables) rendered alone, before / after another unit and both together with a third unit in three orders (an empty table is then never the last unit written), every page of <= 2 units also with the units read eagerly - while the provider's children are built, as a t_string! in a component body does - and with the first unit eager and the rest lazy, and a namespace whose name (`dash-ns`) differs from its Rust identifier; oracle: the <script> element is cut the way the WHATWG tokenizer cuts it (script data / escaped / double escaped states: after `<!--` then `<script` an end tag no longer closes the element), its body must be `window.__LEPTOS_I18N_TRANSLATIONS = <array literal>;` read by an ECMAScript literal reader (all JS escapes, no raw line terminators in strings), and its decoded value must list exactly the touched (locale, unit) pairs, each with the unit's table as exported by the generated server function"));
     cov.insert("exhaustive".into(), json!(true));
     rep.finish(cov, &["the hydrate-side consumer (init_translations, serde_wasm_bindgen) needs a browser: not executed"])
 }
@@ -1209,7 +1254,8 @@ fn c18(tier: Tier) -> i32 {
     let rep = Reporter::new("C18", "L3", tier);
     let cases = all_cases();
     // locales: fr-CA holds explicit nulls: it renders fr's declarations with fr-CA's formatting
-    let locales = ["en", "fr", "de", "ja", "ar", "fr-CA"];
+    // (bn: a locale whose default digits are not the Latin ones - no number, however small, is locale independent)
+    let locales = ["en", "fr", "de", "ja", "ar", "bn", "fr-CA"];
     let mut cfg = Config::simple("en", &locales);
     cfg.inherits = vec![("fr-CA".into(), "fr".into())];
     let mut p = Project::new(cfg);
@@ -1227,7 +1273,7 @@ fn c18(tier: Tier) -> i32 {
     // split over several probe crates to keep compile units moderate
     let per = tier.pick(40, 30);
     let mut built = vec![];
-    let num_values: Vec<f64> = vec![0.0, 1234567.891, -42.0];
+    let num_values: Vec<f64> = vec![1234567.891, 0.0, 42.0, -42.0];
     let lists: Vec<&str> = vec!["[\"A\", \"B\", \"C\"]", "[\"A\"]", "[\"A\", \"B\"]", "[\"\"; 0]"];
     // position of each declaration inside its family: the quick tier runs the view / format-macro flavours on the
     // first two declarations of every family and on every third of the rest
@@ -1258,7 +1304,7 @@ fn c18(tier: Tier) -> i32 {
                     _ => lists.iter().map(|v| (v.to_string(), format!("move || {v}"), format!("&{v}"))).collect(),
                 };
                 for (vi, (sv, vv, dv)) in values.iter().enumerate() {
-                    if tier == Tier::Quick && vi > 0 && !(l == "en" || l == "ar") {
+                    if tier == Tier::Quick && vi > 0 && !(l == "en" || l == "ar" || l == "bn") {
                         continue;
                     }
                     let direct = fc.direct.replace("$L", &format!("{l:?}")).replace("$V", dv);
@@ -1390,7 +1436,7 @@ fn c18(tier: Tier) -> i32 {
     // the same declarations of the number / currency / list families in a build WITHOUT icu_compiled_data:
     // formatters come from a derived IcuDataProvider (second probe workspace)
     {
-        let plocales = ["en", "fr", "ar"];
+        let plocales = ["en", "fr", "ar", "bn"];
         let pcases: Vec<&FmtCase> = cases.iter().filter(|c| matches!(c.family, "number" | "currency" | "list")).collect();
         let mut pp = Project::new(Config::simple("en", &plocales));
         for l in plocales {
@@ -1428,7 +1474,7 @@ fn c18(tier: Tier) -> i32 {
     rep.nontriv(n_cases as u64 * locales.len() as u64);
     rep.sample(json!({"key": "[fr]{{ v, currency(width: narrow; currency_code: EUR) }}", "probe": "cmp(id, td_string!(Locale::fr_CA, f27, v = 1234567.891f64).to_string(), format!(\"[fr]{}\", d_cur(\"fr-CA\", CurrencyWidth::Narrow, \"EUR\", 1234567.891)))"}));
     let mut cov = serde_json::Map::new();
-    cov.insert("rule".into(), json!(format!("{n_cases} formatter declarations (every name x every documented argument value + omitted + invalid, unknown argument, swapped order) as keys of a project with locales en, fr, de, ja, ar and fr-CA (all keys null, inherits fr: fr's declaration rendered for fr-CA); for each key x locale x values (numbers 0, 1234567.891, -42; a fixed date, time, datetime; lists of 3, 1, 2, 0 items) td_string! (all), td! -> html and td_format_string! / td_format_display! / td_format! -> html (quick: the first two declarations of every family and every second or third of the rest) are compared inside the probe with a direct ICU4X call for the locale being rendered; on a context: for the first declaration of every family and every ordered pair of 4 locales, a t_format! / tu_format! / t! view created under the first locale and rendered after set_locale to the second must format for the second; cache histories: every sequence of length <= {} over 6 number-formatter lookups that collide pairwise on locale or on options, each element compared with its direct-ICU value whatever ran before; the number / currency / list declarations again in a probe built WITHOUT icu_compiled_data whose formatters come from a derived IcuDataProvider (set_icu_data_provider)", tier.pick(4, 5))));
+    cov.insert("rule".into(), json!(format!("{n_cases} formatter declarations (every name x every documented argument value + omitted + invalid, unknown argument, swapped order) as keys of a project with locales en, fr, de, ja, ar, bn (non-Latin default digits) and fr-CA (all keys null, inherits fr: fr's declaration rendered for fr-CA); for each key x locale x values (numbers 1234567.891, 0, 42, -42; a fixed date, time, datetime; lists of 3, 1, 2, 0 items) td_string! (all), td! -> html and td_format_string! / td_format_display! / td_format! -> html (quick: the first two declarations of every family and every second or third of the rest) are compared inside the probe with a direct ICU4X call for the locale being rendered; on a context: for the first declaration of every family and every ordered pair of 4 locales, a t_format! / tu_format! / t! view created under the first locale and rendered after set_locale to the second must format for the second; cache histories: every sequence of length <= {} over 6 number-formatter lookups that collide pairwise on locale or on options, each element compared with its direct-ICU value whatever ran before; the number / currency / list declarations again in a probe built WITHOUT icu_compiled_data whose formatters come from a derived IcuDataProvider (set_icu_data_provider)", tier.pick(4, 5))));
     cov.insert("exhaustive".into(), json!(tier == Tier::Thorough));
     rep.finish(cov, &["ICU4X formatting with compiled data is the reference (trusted base)", "thread interleavings of the cache are the loom engine's part of this check"])
 }
@@ -1603,7 +1649,8 @@ fn c04(tier: Tier) -> i32 {
             let nexpr = if enumerated { "n.1" } else { "n" };
             c.add_count_loop(&iter_expr, &index_expr, &format!("td_string!(Locale::en, r{i}, count = {nexpr}).to_string()"), &format!("{} r{i} {}", ty.name(), val_json(&Val::Range(decls[i].clone()))), exp_s);
             // the view back-end for a subset
-            if i % tier.pick(9, 3) == 0 {
+            // (all of the float declarations: their if-chains are generated separately for views and for strings)
+            if i % tier.pick(9, 3) == 0 || ty.is_float() {
                 let exp_v: Vec<Option<String>> = counts
                     .iter()
                     .map(|n| {
@@ -1997,7 +2044,9 @@ fn main() {
         "c08" => c07_c08(tier, "C08"),
         "c12" => c12(tier),
         "c13" => c13(tier),
-        "c17" => c17(tier),
+        "c17" => c17(tier, "C17"),
+        // C11: the tables embedded in the page are one of the exports for lazy loading
+        "c11" => c17(tier, "C11"),
         "c18" => c18(tier),
         _ => {
             eprintln!("usage: vgen <c01|...> [--tier quick|thorough]");
